@@ -34,7 +34,7 @@ def main(argv):
     try:
         facts, th = factsmod.extract(repo=a.repo, profile="dev", target_tag=a.tag)
         facts_rel = None
-        if a.tier == "thorough" and PROPS[prop].get("needs_rel"):
+        if a.tier == "thorough" and prop in ("C06", "C11", "C14"):
             facts_rel, _ = factsmod.extract(repo=a.repo, profile="rel", target_tag=a.tag)
     except RuntimeError as e:
         print("INTERNAL: %s" % e)
@@ -53,6 +53,10 @@ def main(argv):
     extra = {}
     if a.tier == "thorough":
         import thorough
-        extra = thorough.run(ctx, prop, insts, reports)
+        extra = thorough.run(ctx, prop, insts, reports, repo=a.repo)
+        if extra.get("release_profile_audit", {}).get("undischarged"):
+            from engine import Inst
+            for k in extra["release_profile_audit"]["undischarged_keys"]:
+                insts.append(Inst(k.split(":")[0], "release:" + k.split(":", 1)[1], "-", False, "panic site not discharged in the release-profile MIR"))
     p = PROPS[prop]
     return engine.finish(prop, ctx, insts, reports, time.time() - t0, p["decided"], p["not_decided"], extra=extra, seed=seed, scratch=bool(a.repo) and os.path.realpath(a.repo) != os.path.realpath(factsmod.REPO))
